@@ -593,8 +593,14 @@ fn batch_verdicts<H: TH>(show: bool, root: &H::Digest, proof: &BatchMerkleProof<
     format!("{gr} {vb} {io}")
 }
 
+/// fix af69a4d: a leaf count other than the (non-zero) index count is InvalidProof in all three
+/// entry points, before any index is looked at
+const COUNT_MISMATCH: &str = "err-invalid err-invalid err-invalid";
 const NO_ABORT: &str = r"~^(ok-same|ok-diff|err-\w+) (ok|err-\w+) (ok:\d+|err-\w+)$";
 const REJECT: &str = r"~^(ok-diff|err-invalid) err-invalid (ok:\d+|err-\w+)$";
+/// `get_root` itself must refuse (fix f1ad895: every supplied node has to be consumed);
+/// `into_openings` has no consumption check and is not a verification function
+const REJECT_UNUSED: &str = r"~^err-invalid err-invalid (ok:\d+|err-\w+)$";
 
 fn op_bmut<H: TH>(out: &mut Out, spec: &Spec, idx: &[usize], m: &str, oracle: &str, class: &str) {
     let req = format!("c18 bmut {} {} {} {}", H::TAG, spec.token(), ilist(idx), m);
@@ -618,11 +624,36 @@ fn op_bmut<H: TH>(out: &mut Out, spec: &Spec, idx: &[usize], m: &str, oracle: &s
                 let f = fresh_of::<H>(proof.nodes[num(1)].first());
                 proof.nodes[num(1)].push(f);
             },
+            // k digests appended to vector i: fresh(head or 7), then fresh of the previous one
+            "addnodes" => {
+                let mut f = fresh_of::<H>(proof.nodes[num(1)].first());
+                for _ in 0..num(2) {
+                    proof.nodes[num(1)].push(f);
+                    f = H::merge(&[f, f]);
+                }
+            },
+            // the last digest of vector j is dropped and a fresh one appended to vector i (the
+            // total number of digests is unchanged)
+            "movenode" => {
+                let f = fresh_of::<H>(proof.nodes[num(1)].first());
+                proof.nodes[num(2)].pop().unwrap();
+                proof.nodes[num(1)].push(f);
+            },
             "dropvec" => { proof.nodes.remove(num(1)); },
             "addvec" => proof.nodes.push(vec![]),
             "depth" => proof.depth = num(1) as u8,
             "dropleaf" => { lv.remove(num(1)); },
             "addleaf" => { let f = fresh_of::<H>(lv.first()); lv.push(f); },
+            // k surplus leaves: fresh(head or 7), then fresh of the previous one
+            "addleaves" => {
+                let mut f = fresh_of::<H>(lv.first());
+                for _ in 0..num(1) {
+                    lv.push(f);
+                    f = H::merge(&[f, f]);
+                }
+            },
+            // an index AND a leaf appended (the counts stay equal)
+            "addpair" => { let f = fresh_of::<H>(lv.first()); lv.push(f); idx.push(num(1)); },
             "swapleaf" => lv.swap(num(1), num(2)),
             "dropidx" => { idx.remove(num(1)); },
             "addidx" => idx.push(num(1)),
@@ -696,11 +727,48 @@ fn mutations_for<H: TH>(rng: &mut Rng, out: &mut Out, spec: &Spec, idx: &[usize]
             op_bmut::<H>(out, spec, idx, &format!("idx:{p}:{new}"), "err-oob err-oob err-oob", "index-out-of-range");
         }
     }
-    op_bmut::<H>(out, spec, idx, &format!("addidx:{}", idx[0]), "~^err-dup err-dup err-", "index-duplicate");
-    op_bmut::<H>(out, spec, idx, &format!("addidx:{n}"), "~^err-oob err-oob err-", "index-out-of-range");
+    // an index appended together with a leaf (counts equal): the index checks answer
+    op_bmut::<H>(out, spec, idx, &format!("addpair:{}", idx[0]), "err-dup err-dup err-dup", "index-duplicate");
+    op_bmut::<H>(out, spec, idx, &format!("addpair:{n}"), "err-oob err-oob err-oob", "index-out-of-range");
+    op_bmut::<H>(out, spec, idx, &format!("addpair:{}", usize::MAX), "err-oob err-oob err-oob", "index-out-of-range");
+    // an index appended alone: the leaf-count check answers first (fix af69a4d)
+    op_bmut::<H>(out, spec, idx, &format!("addidx:{}", idx[0]), COUNT_MISMATCH, "index-appended");
+    op_bmut::<H>(out, spec, idx, &format!("addidx:{n}"), COUNT_MISMATCH, "index-appended");
+    // nodes that nothing consumes: an extra digest at the end of a node vector (every vector
+    // position on small proofs; first, second, middle, last otherwise) must be REJECTED by
+    // get_root / verify_batch (fix f1ad895), also when another vector is truncated so that the
+    // total number of digests is unchanged; appending nothing changes nothing
+    let nv = proof.nodes.len();
+    let mut vpos: Vec<usize> = if exhaustive || nv <= 8 { (0..nv).collect() } else {
+        vec![0, 1, nv / 2, nv - 1, rng.below(nv as u64) as usize]
+    };
+    vpos.sort();
+    vpos.dedup();
+    for &i in &vpos {
+        let class = if proof.nodes[i].is_empty() { "node-appended-to-empty-vector" } else if i == 0 { "node-appended-first" } else if i == nv - 1 { "node-appended-last" } else { "node-appended-middle" };
+        op_bmut::<H>(out, spec, idx, &format!("addnode:{i}"), REJECT_UNUSED, class);
+    }
+    {
+        let i = vpos[rng.below(vpos.len() as u64) as usize];
+        op_bmut::<H>(out, spec, idx, &format!("addnodes:{i}:{}", 2 + rng.below(3)), REJECT_UNUSED, "nodes-appended-many");
+        op_bmut::<H>(out, spec, idx, &format!("addnodes:{i}:0"), "~^ok-same ok ok:", "nothing-appended");
+        // as many digests as the whole proof has vectors (the count a lazy length check might allow)
+        op_bmut::<H>(out, spec, idx, &format!("addnodes:{}:{nv}", nv - 1), REJECT_UNUSED, "nodes-appended-many");
+    }
+    let nonempty: Vec<usize> = (0..nv).filter(|&j| !proof.nodes[j].is_empty()).collect();
+    for &i in &vpos {
+        let from: Vec<usize> = nonempty.iter().cloned().filter(|&j| j != i).collect();
+        if from.is_empty() { continue; }
+        let js: Vec<usize> = if exhaustive { from.clone() } else { vec![from[0], from[from.len() - 1], *rng.pick(&from)] };
+        let mut js = js;
+        js.sort();
+        js.dedup();
+        for j in js {
+            op_bmut::<H>(out, spec, idx, &format!("movenode:{i}:{j}"), REJECT_UNUSED, "node-moved-count-unchanged");
+        }
+    }
     // structural damage: must be ok/err, never a panic
     for i in 0..proof.nodes.len().min(if exhaustive { 8 } else { 2 }) {
-        op_bmut::<H>(out, spec, idx, &format!("addnode:{i}"), "~^ok-same ok ok:", "node-appended");
         op_bmut::<H>(out, spec, idx, &format!("dropvec:{i}"), NO_ABORT, "vector-dropped");
     }
     op_bmut::<H>(out, spec, idx, "addvec", NO_ABORT, "vector-appended");
@@ -710,12 +778,22 @@ fn mutations_for<H: TH>(rng: &mut Rng, out: &mut Out, spec: &Spec, idx: &[usize]
             op_bmut::<H>(out, spec, idx, &format!("depth:{d}"), NO_ABORT, "depth-changed");
         }
     }
-    op_bmut::<H>(out, spec, idx, &format!("dropleaf:{}", lv.len() - 1), NO_ABORT, "leaf-dropped");
-    op_bmut::<H>(out, spec, idx, "dropleaf:0", NO_ABORT, "leaf-dropped");
-    op_bmut::<H>(out, spec, idx, "addleaf", NO_ABORT, "leaf-appended");
-    op_bmut::<H>(out, spec, idx, &format!("dropidx:{}", idx.len() - 1), NO_ABORT, "index-dropped");
+    // leaf count != index count (fix af69a4d): surplus leaves used to be ignored by get_root;
+    // now one leaf too many / too few, at either end or in the middle, is InvalidProof
+    op_bmut::<H>(out, spec, idx, &format!("dropleaf:{}", lv.len() - 1), COUNT_MISMATCH, "leaf-dropped-last");
+    op_bmut::<H>(out, spec, idx, "dropleaf:0", COUNT_MISMATCH, "leaf-dropped-first");
+    if lv.len() > 2 {
+        op_bmut::<H>(out, spec, idx, &format!("dropleaf:{}", lv.len() / 2), COUNT_MISMATCH, "leaf-dropped-middle");
+    }
+    op_bmut::<H>(out, spec, idx, "addleaf", COUNT_MISMATCH, "leaf-appended");
+    op_bmut::<H>(out, spec, idx, &format!("addleaves:{}", 2 + rng.below(3)), COUNT_MISMATCH, "leaves-appended-many");
+    op_bmut::<H>(out, spec, idx, &format!("addleaves:{}", lv.len()), COUNT_MISMATCH, "leaves-appended-many");
+    op_bmut::<H>(out, spec, idx, "addleaves:0", "~^ok-same ok ok:", "nothing-appended");
+    let dropidx_oracle = if idx.len() == 1 { "err-toofew err-toofew err-toofew" } else { COUNT_MISMATCH };
+    op_bmut::<H>(out, spec, idx, &format!("dropidx:{}", idx.len() - 1), dropidx_oracle, "index-dropped");
+    op_bmut::<H>(out, spec, idx, "dropidx:0", dropidx_oracle, "index-dropped");
     for new in [0usize, 1, n - 1] {
-        op_bmut::<H>(out, spec, idx, &format!("addidx:{new}"), NO_ABORT, "index-appended");
+        op_bmut::<H>(out, spec, idx, &format!("addidx:{new}"), COUNT_MISMATCH, "index-appended");
     }
 }
 
@@ -731,8 +809,10 @@ const X_NO_ABORT: &str = r"~^(ok:\w+|err-\w+) (ok|err-\w+) (ok:\w+|err-\w+)$";
 
 fn op_xbatch(out: &mut Out, root: TD, depth: u8, nodes: &[Vec<TD>], idx: &[usize], lv: &[TD], class: &str) {
     let req = format!("c18 xbatch {} {} {} {} {}", dhex(&root), depth, nodes_str(nodes), ilist(idx), dlist(lv));
-    out.count(&format!("explicit-{class}"));
-    out.case(&req, X_NO_ABORT, || {
+    out.count(&format!("explicit-{class}{}", if !idx.is_empty() && idx.len() != lv.len() { "-leaf-count-mismatch" } else { "" }));
+    // fix af69a4d: with at least one index, a different number of leaves is InvalidProof everywhere
+    let oracle = if idx.is_empty() { "err-toofew err-toofew err-toofew" } else if idx.len() != lv.len() { COUNT_MISMATCH } else { X_NO_ABORT };
+    out.case(&req, oracle, || {
         let proof = BatchMerkleProof::<Toy> { nodes: nodes.to_vec(), depth };
         batch_verdicts::<Toy>(true, &root, &proof, idx, lv)
     });
@@ -774,10 +854,14 @@ fn op_xfsp(out: &mut Out, os: &[(TD, Vec<TD>)], idx: &[usize], oracle: &str, cla
     });
 }
 
-fn op_xdec(out: &mut Out, bytes: &[u8], idx: &[usize], lv: &[TD], class: &str) {
+const XDEC_NO_ABORT: &str = r"~^(decerr|\S+ (ok:\w+|err-\w+) (ok:\w+|err-\w+))$";
+/// a decodable proof that `get_root` must refuse as InvalidProof
+const XDEC_REJECT: &str = r"~^\S+ err-invalid (ok:\w+|err-\w+)$";
+
+fn op_xdec(out: &mut Out, bytes: &[u8], idx: &[usize], lv: &[TD], class: &str, oracle: &str) {
     let req = format!("c18 xdec {} {} {}", hex(bytes), ilist(idx), dlist(lv));
     out.count(&format!("decode-{class}"));
-    out.case(&req, r"~^(decerr|\S+ (ok:\w+|err-\w+) (ok:\w+|err-\w+))$", || {
+    out.case(&req, oracle, || {
         match BatchMerkleProof::<Toy>::read_from_bytes(bytes) {
             Err(_) => "decerr".to_string(),
             Ok(p) => {
@@ -902,7 +986,14 @@ pub fn run_c19(rng: &mut Rng, out: &mut Out, n: usize) {
         let idx = random_subset(rng, count, m);
         let (mut lv, mut proof) = tree.prove_batch(&idx).unwrap();
         let mut idx = idx;
-        match rng.below(6) {
+        match rng.below(8) {
+            6 => { let i = rng.below(proof.nodes.len() as u64) as usize; let n = 1 + rng.below(2); for _ in 0..n { let d = small_digest(rng); proof.nodes[i].push(d); } },
+            7 => {
+                // one digest moved from the end of a vector to the end of another
+                let i = rng.below(proof.nodes.len() as u64) as usize;
+                let j = rng.below(proof.nodes.len() as u64) as usize;
+                if let Some(d) = proof.nodes[j].pop() { proof.nodes[i].push(d); }
+            },
             0 => proof.depth = rng.below(8) as u8,
             1 => { let i = rng.below(proof.nodes.len() as u64) as usize; proof.nodes[i] = (0..rng.below(4)).map(|_| small_digest(rng)).collect(); },
             2 => { let j = rng.below(proof.nodes.len() as u64) as usize; proof.nodes.swap(0, j); proof.nodes.reverse(); },
@@ -920,9 +1011,16 @@ pub fn run_c19(rng: &mut Rng, out: &mut Out, n: usize) {
         let tree = MerkleTree::<Toy>::new(spec.leaves::<Toy>()).unwrap();
         let m = 1 + rng.below(count.min(4) as u64) as usize;
         let idx = random_subset(rng, count, m);
-        let (lv, proof) = tree.prove_batch(&idx).unwrap();
+        let (lv, mut proof) = tree.prove_batch(&idx).unwrap();
+        let padded = rng.below(8) == 0;
+        if padded {
+            // a well-formed encoding of a proof with a digest nothing consumes
+            let i = rng.below(proof.nodes.len() as u64) as usize;
+            let d = small_digest(rng);
+            proof.nodes[i].push(d);
+        }
         let mut bytes = proof.to_bytes();
-        let class = match rng.below(7) {
+        let class = if padded { "node-appended" } else { match rng.below(7) {
             0 => "intact",
             1 => { let i = rng.below(bytes.len() as u64) as usize; bytes[i] ^= 1 << rng.below(8); "bit-flip" },
             2 => { bytes.truncate(rng.below(bytes.len() as u64) as usize); "truncated" },
@@ -930,8 +1028,8 @@ pub fn run_c19(rng: &mut Rng, out: &mut Out, n: usize) {
             4 => { if bytes.len() > 1 { bytes[1] = rng.next() as u8; } "count-byte" },
             5 => { let i = rng.below(bytes.len() as u64) as usize; bytes[i] = rng.next() as u8; "byte-replaced" },
             _ => { let m = rng.below(40) as usize; let extra = rng.bytes(m); bytes.extend(extra); "extended" },
-        };
-        op_xdec(out, &bytes, &idx, &lv, class);
+        } };
+        op_xdec(out, &bytes, &idx, &lv, class, if padded { XDEC_REJECT } else { XDEC_NO_ABORT });
     }
     for _ in 0..(20 * max_k) {
         let len = rng.below(80) as usize;
@@ -939,7 +1037,7 @@ pub fn run_c19(rng: &mut Rng, out: &mut Out, n: usize) {
         if len > 2 && rng.chance(2, 3) { bytes[0] = rng.below(4) as u8; bytes[1] = ((rng.below(3) as u8) << 1) | 1; }
         let idx: Vec<usize> = (0..rng.range(1, 3)).map(|_| rng.below(4) as usize).collect();
         let lv: Vec<TD> = idx.iter().map(|_| small_digest(rng)).collect();
-        op_xdec(out, &bytes, &idx, &lv, "random-bytes");
+        op_xdec(out, &bytes, &idx, &lv, "random-bytes", XDEC_NO_ABORT);
     }
     // ---- from_single_proofs: documented panics and consistent inputs ----------------------------
     for _ in 0..(20 * max_k) {
